@@ -82,7 +82,9 @@ func (c *Chain) runRI(sc *SelCase) {
 	var res []int
 	old := c.Timeout
 	c.Timeout = 2 * time.Second
-	r, _ := c.guarded(func() { res = c.App.NodeKeeper.RandomIndex(new(big.Int).SetInt64(sc.Seed), int(sc.Total), int(sc.Count)) })
+	r, _ := c.guarded(func() {
+		res = c.App.NodeKeeper.RandomIndex(new(big.Int).SetInt64(sc.Seed), int(sc.Total), int(sc.Count))
+	})
 	c.Timeout = old
 	sc.Out = SelOut{Result: r, Sps: []string{}, Idx: []int64{}, Round: -1}
 	for _, i := range res {
